@@ -18,9 +18,9 @@ pub fn violation(l: &mut Local, key: impl Into<String>, what: impl Into<String>,
         *e += 1;
         *e
     });
+    // every instance is counted (deterministic total); the first two per worker are recorded with their case
+    l.class(&format!("violation `{key}` (instances)"));
     if n <= 2 {
         l.violation(key, what, case);
-    } else {
-        l.class(&format!("violation `{key}` (further instances, not recorded individually)"));
     }
 }
